@@ -5,9 +5,10 @@ Hand model of chibicc's source-position bookkeeping (property C18), written afte
                remove_backslash_newline (with the re-insertion counter `n`), convert_universal_chars (with unicode.c encode_utf8),
                add_line_numbers,
                error_at (recount of newlines), verror_at (source line shown), tokenize_file's file_no / input_files
-  preprocess.c read_line_marker (`line_delta = N - line_no(directive)`, `display_name`),
-               preprocess2 pass-through (`tok->line_delta = tok->file->line_delta; tok->filename = ...`),
-               preprocess (`t->line_no += t->line_delta`), line_macro / file_macro (walk `origin`),
+  preprocess.c read_line_marker (`line_delta = N - line_no(directive)`, `display_name`, and the `LineMarker` it pushes on
+               `file->markers`), line_marker_at (the directive in force at a token's own line),
+               preprocess2 pass-through (`m = line_marker_at(tok); tok->line_delta = m ? m->line_delta : 0; tok->filename = ...`),
+               preprocess (`t->line_no += t->line_delta`), line_macro / file_macro (walk `origin`, then `line_marker_at`),
                paste / new_str_token / new_num_token (fresh File with the template's name and file_no; `line_no` of the template),
                include_file (token lists are spliced, nothing is renumbered)
   codegen.c    `.loc file_no line_no` in gen_expr / gen_stmt, the `.file` table in codegen
@@ -175,16 +176,25 @@ def shownLine (text : List Nat) (loc : Nat) : List Nat :=
 
 /-! ## files and tokens -/
 
+/-- `LineMarker` (chibicc.h): one `#line`-family directive of a file -/
+structure LineMarker where
+  lineNo : Int            -- `line_no`: line (as `add_line_numbers` computed it) of the directive
+  lineDelta : Int         -- `line_delta`
+  displayName : String    -- `display_name`
+  deriving DecidableEq, Repr
+
 /-- `File` (chibicc.h) -/
 structure File where
   name : String
   fileNo : Nat
   displayName : String
   lineDelta : Int
+  markers : List LineMarker := []   -- `markers`: most recent first
+  inclDepth : Nat := 0              -- `incl_depth` (set by include_file; no position depends on it)
   deriving DecidableEq, Repr
 
-/-- `new_file` -/
-def newFile (name : String) (fileNo : Nat) : File := ⟨name, fileNo, name, 0⟩
+/-- `new_file` (`calloc`: no markers, depth 0) -/
+def newFile (name : String) (fileNo : Nat) : File := ⟨name, fileNo, name, 0, [], 0⟩
 
 /-- the `input_files` array: one `File` per `tokenize_file` call, in order of entry -/
 abbrev Files := List File
@@ -197,7 +207,7 @@ def fileTable (fs : Files) : List (Nat × String) := fs.map (fun f => (f.fileNo,
 
 /-- which `File` object a token points to: one of `input_files`, or a fresh one made by
     `new_file(tmpl->file->name, tmpl->file->file_no, buf)` in paste / new_str_token / new_num_token
-    (name and file_no of input file `of`, `display_name = name`, `line_delta = 0`; never the target of a `#line`) -/
+    (name and file_no of input file `of`, `display_name = name`, `line_delta = 0`, no markers; never the target of a `#line`) -/
 inductive FileRef where
   | input (idx : Nat)
   | synth (of : Nat)
@@ -237,29 +247,57 @@ def Tok.outermost : Tok → Tok
 /-- `expand_macro`: `for (t = body; ...) t->origin = tok;` on a copy of a body token -/
 def expandBodyTok (body : TokInfo) (macroTok : Tok) : Tok := .expanded body macroTok
 
-/-- `read_line_marker`: `start->file->line_delta = tok->val - start->line_no;` and, if a string follows,
-    `start->file->display_name = tok->str;` -/
+/-- `read_line_marker`:
+    ```
+    start->file->line_delta = tok->val - start->line_no;
+    m->next = start->file->markers; m->line_no = start->line_no; m->line_delta = start->file->line_delta;
+    m->display_name = start->file->display_name; start->file->markers = m;
+    … if a string follows: start->file->display_name = m->display_name = tok->str;
+    ```
+    `startLineNo` is the `line_no` of the directive's first operand token BEFORE macro expansion (`start`; it lies on the
+    directive's own logical line), `val` the value of the (macro-expanded) number. -/
 def readLineMarker (f : File) (startLineNo : Int) (val : Int) (name : Option String) : File :=
-  { f with lineDelta := val - startLineNo, displayName := name.getD f.displayName }
+  let delta := val - startLineNo
+  let disp := name.getD f.displayName
+  { f with lineDelta := delta, displayName := disp, markers := ⟨startLineNo, delta, disp⟩ :: f.markers }
 
-/-- `preprocess2`, a token that is not a `#`: `tok->line_delta = tok->file->line_delta; tok->filename = tok->file->display_name;`
-    (`f` is `tok->file`) -/
+/-- `line_marker_at`: `m = tok->file->markers; while (m && m->line_no >= tok->line_no) m = m->next; return m;` -/
+def lineMarkerAt : List LineMarker → Int → Option LineMarker
+  | [], _ => none
+  | m :: r, lineNo => if m.lineNo ≥ lineNo then lineMarkerAt r lineNo else some m
+
+/-- `m ? m->line_delta : 0` -/
+def deltaAt (f : File) (lineNo : Int) : Int :=
+  match lineMarkerAt f.markers lineNo with
+  | some m => m.lineDelta
+  | none => 0
+
+/-- `m ? m->display_name : tok->file->name` -/
+def nameAt (f : File) (lineNo : Int) : String :=
+  match lineMarkerAt f.markers lineNo with
+  | some m => m.displayName
+  | none => f.name
+
+/-- `preprocess2`, a token that is not a `#`:
+    `LineMarker *m = line_marker_at(tok); tok->line_delta = m ? m->line_delta : 0; tok->filename = m ? m->display_name : tok->file->name;`
+    (`f` is `tok->file`; `t.lineNo` is still the line `add_line_numbers` computed) -/
 def passThroughF (f : File) (t : TokInfo) : TokInfo :=
-  { t with lineDelta := f.lineDelta, filename := f.displayName }
+  { t with lineDelta := deltaAt f t.lineNo, filename := nameAt f t.lineNo }
 
 def passThrough (fs : Files) (t : TokInfo) : TokInfo := passThroughF (getFile fs t.file) t
 
 /-- `preprocess`: `for (t = tok; t; t = t->next) t->line_no += t->line_delta;` -/
 def finalize (t : TokInfo) : TokInfo := { t with lineNo := t.lineNo + t.lineDelta }
 
-/-- `line_macro`: the value of `__LINE__` -/
+/-- `line_macro`: the value of `__LINE__` (`tmpl` walked to the outermost origin; the marker in force THERE) -/
 def lineMacro (fs : Files) (tmpl : Tok) : Int :=
   let o := tmpl.outermost.info
-  o.lineNo + (getFile fs o.file).lineDelta
+  o.lineNo + deltaAt (getFile fs o.file) o.lineNo
 
 /-- `file_macro`: the value of `__FILE__` -/
 def fileMacro (fs : Files) (tmpl : Tok) : String :=
-  (getFile fs tmpl.outermost.info.file).displayName
+  let o := tmpl.outermost.info
+  nameAt (getFile fs o.file) o.lineNo
 
 /-- `new_num_token` / `new_str_token` (as used by line_macro, file_macro, stringize) and `paste`:
     the new token lives in a fresh `File` and takes the template's `line_no` -/
@@ -273,9 +311,10 @@ def diagPrefix (fs : Files) (t : TokInfo) : String × Int := ((getFile fs t.file
 
 /-! ## one file's tokens in processing order -/
 
-/-- what `preprocess2` meets in ONE `File` object, in order (tokens of other files in between do not touch this
-    file's `line_delta` / `display_name`): ordinary tokens by text offset, `#line`-family directives by the offset of
-    their `#`, and `__LINE__` / `__FILE__` expansions by the offset of the outermost origin token. -/
+/-- what `preprocess2` meets in ONE `File` object, in PROCESSING order (tokens of other files in between do not touch this
+    file's markers): ordinary tokens by text offset — a token copied out of a macro body is met when the macro is expanded,
+    which can be long after (and below) later `#line` directives of the file —, `#line`-family directives by the offset of
+    their first operand token (`start` in read_line_marker; it lies on the logical line of the `#`), and `__LINE__` / `__FILE__` expansions by the offset of the outermost origin token. -/
 inductive Ev where
   | tok (off : Nat)
   | lineDir (off : Nat) (n : Int) (name : Option String)
@@ -296,12 +335,15 @@ def runFile (text : List Nat) : File → List Ev → List Out
     let t := finalize (passThroughF f { file := .input (f.fileNo - 1), lineNo := lineNoOf text off })
     .tok t.lineNo t.filename :: runFile text f r
   | f, .lineDir off n name :: r => runFile text (readLineMarker f (lineNoOf text off) n name) r
-  | f, .lineMac off :: r => .line ((lineNoOf text off : Int) + f.lineDelta) :: runFile text f r
-  | f, .fileMac _ :: r => .file f.displayName :: runFile text f r
+  | f, .lineMac off :: r => .line ((lineNoOf text off : Int) + deltaAt f (lineNoOf text off)) :: runFile text f r
+  | f, .fileMac off :: r => .file (nameAt f (lineNoOf text off)) :: runFile text f r
 
 /-- `include_file`: `return append(tok2, tok);` — the included file's tokens (numbered from its own text) are put in
     front of the rest of the including file's tokens; no `line_no` is touched -/
 def includeFile (included rest : List TokInfo) : List TokInfo := included ++ rest
+
+/-- `include_file`: `tok2->file->incl_depth = filename_tok->file->incl_depth + 1;` on the freshly entered file -/
+def enterIncluded (includer : File) (f : File) : File := { f with inclDepth := includer.inclDepth + 1 }
 
 /-! ## original offsets -/
 
